@@ -7,6 +7,7 @@
 #include <symengine/matrix.h>
 #include <symengine/integer.h>
 #include <symengine/rational.h>
+#include <symengine/complex.h>
 #include <symengine/constants.h>
 #include <symengine/nan.h>
 #include <symengine/infinity.h>
@@ -17,16 +18,74 @@
 using namespace SymEngine;
 
 // ------------------------------------------------------------------ exact reference side
+// Gaussian rationals: the field of the reference side (rational entries have im = 0)
+struct F {
+    mpq_class re, im;
+    F() : re(0), im(0) {}
+    F(int v) : re(v), im(0) {}
+    F(unsigned v) : re(v), im(0) {}
+    F(const mpq_class &r) : re(r), im(0) {}
+    F(const mpq_class &r, const mpq_class &i) : re(r), im(i) {}
+    bool operator==(const F &o) const
+    {
+        return re == o.re && im == o.im;
+    }
+    bool operator!=(const F &o) const
+    {
+        return !(*this == o);
+    }
+    F operator+(const F &o) const
+    {
+        return F(re + o.re, im + o.im);
+    }
+    F operator-(const F &o) const
+    {
+        return F(re - o.re, im - o.im);
+    }
+    F operator-() const
+    {
+        return F(-re, -im);
+    }
+    F operator*(const F &o) const
+    {
+        return F(re * o.re - im * o.im, re * o.im + im * o.re);
+    }
+    F operator/(const F &o) const
+    {
+        mpq_class n = o.re * o.re + o.im * o.im;
+        return F((re * o.re + im * o.im) / n, (im * o.re - re * o.im) / n);
+    }
+    F &operator+=(const F &o)
+    {
+        *this = *this + o;
+        return *this;
+    }
+    F &operator-=(const F &o)
+    {
+        *this = *this - o;
+        return *this;
+    }
+    F &operator*=(const F &o)
+    {
+        *this = *this * o;
+        return *this;
+    }
+};
+static F operator/(int a, const F &b)
+{
+    return F(a) / b;
+}
+
 struct QM {
     unsigned r = 0, c = 0;
-    std::vector<mpq_class> a;
+    std::vector<F> a;
     QM() {}
     QM(unsigned r_, unsigned c_) : r(r_), c(c_), a((size_t)r_ * c_) {}
-    mpq_class &at(unsigned i, unsigned j)
+    F &at(unsigned i, unsigned j)
     {
         return a[(size_t)i * c + j];
     }
-    const mpq_class &at(unsigned i, unsigned j) const
+    const F &at(unsigned i, unsigned j) const
     {
         return a[(size_t)i * c + j];
     }
@@ -41,7 +100,7 @@ static QM q_mul(const QM &A, const QM &B)
     QM C(A.r, B.c);
     for (unsigned i = 0; i < A.r; i++)
         for (unsigned j = 0; j < B.c; j++) {
-            mpq_class s = 0;
+            F s = 0;
             for (unsigned k = 0; k < A.c; k++)
                 s += A.at(i, k) * B.at(k, j);
             C.at(i, j) = s;
@@ -77,12 +136,12 @@ static std::vector<unsigned> q_rref(QM &M)
         if (p != row)
             for (unsigned k = 0; k < M.c; k++)
                 std::swap(M.at(p, k), M.at(row, k));
-        mpq_class inv = 1 / M.at(row, col);
+        F inv = 1 / M.at(row, col);
         for (unsigned k = 0; k < M.c; k++)
             M.at(row, k) *= inv;
         for (unsigned i = 0; i < M.r; i++)
             if (i != row && M.at(i, col) != 0) {
-                mpq_class f = M.at(i, col);
+                F f = M.at(i, col);
                 for (unsigned k = 0; k < M.c; k++)
                     M.at(i, k) -= f * M.at(row, k);
             }
@@ -104,14 +163,14 @@ static bool q_row_equiv(const QM &A, const QM &B)
     q_rref(b);
     return a == b;
 }
-static mpq_class q_det_cofactor(const QM &A)
+static F q_det_cofactor(const QM &A)
 {
     unsigned n = A.r;
     if (n == 0)
         return 1;
     if (n == 1)
         return A.at(0, 0);
-    mpq_class s = 0;
+    F s = 0;
     for (unsigned j = 0; j < n; j++) {
         if (A.at(0, j) == 0)
             continue;
@@ -122,7 +181,7 @@ static mpq_class q_det_cofactor(const QM &A)
                 if (k != j)
                     m.at(i - 1, cc++) = A.at(i, k);
         }
-        mpq_class t = A.at(0, j) * q_det_cofactor(m);
+        F t = A.at(0, j) * q_det_cofactor(m);
         if (j % 2)
             s -= t;
         else
@@ -130,10 +189,10 @@ static mpq_class q_det_cofactor(const QM &A)
     }
     return s;
 }
-static mpq_class q_det_elim(QM M)
+static F q_det_elim(QM M)
 {
     unsigned n = M.r;
-    mpq_class det = 1;
+    F det = 1;
     for (unsigned c = 0; c < n; c++) {
         unsigned p = c;
         while (p < n && M.at(p, c) == 0)
@@ -147,22 +206,22 @@ static mpq_class q_det_elim(QM M)
         }
         det *= M.at(c, c);
         for (unsigned i = c + 1; i < n; i++) {
-            mpq_class f = M.at(i, c) / M.at(c, c);
+            F f = M.at(i, c) / M.at(c, c);
             for (unsigned k = c; k < n; k++)
                 M.at(i, k) -= f * M.at(c, k);
         }
     }
     return det;
 }
-static mpq_class q_det(const QM &A)
+static F q_det(const QM &A)
 {
     return A.r <= 5 ? q_det_cofactor(A) : q_det_elim(A);
 }
 // characteristic polynomial det(x I - A), highest coefficient first (Faddeev-LeVerrier)
-static std::vector<mpq_class> q_charpoly(const QM &A)
+static std::vector<F> q_charpoly(const QM &A)
 {
     unsigned n = A.r;
-    std::vector<mpq_class> c(n + 1);
+    std::vector<F> c(n + 1);
     c[0] = 1;
     QM M(n, n); // M_0 = 0
     for (unsigned k = 1; k <= n; k++) {
@@ -172,10 +231,10 @@ static std::vector<mpq_class> q_charpoly(const QM &A)
             AM.at(i, i) += c[k - 1];
         M = AM;
         QM AMk = q_mul(A, M);
-        mpq_class tr = 0;
+        F tr = 0;
         for (unsigned i = 0; i < n; i++)
             tr += AMk.at(i, i);
-        c[k] = -tr / k;
+        c[k] = -tr / F(k);
     }
     return c;
 }
@@ -261,17 +320,25 @@ static bool q_reduced(const QM &A)
 }
 
 // ------------------------------------------------------------------ library side
+static RCP<const Number> parse_rat(const std::string &s)
+{
+    size_t k = s.find('/');
+    if (k == std::string::npos)
+        return integer(integer_class(s));
+    return Rational::from_two_ints(*integer(integer_class(s.substr(0, k))),
+                                   *integer(integer_class(s.substr(k + 1))));
+}
+// entry syntax: p | p/q | zoo | nan | <re>_<im> (Gaussian rational)
 static RCP<const Basic> parse_entry(const std::string &s)
 {
     if (s == "zoo")
         return ComplexInf;
     if (s == "nan")
         return Nan;
-    size_t k = s.find('/');
-    if (k == std::string::npos)
-        return integer(integer_class(s));
-    return Rational::from_two_ints(*integer(integer_class(s.substr(0, k))),
-                                   *integer(integer_class(s.substr(k + 1))));
+    size_t u = s.find('_');
+    if (u == std::string::npos)
+        return parse_rat(s);
+    return Complex::from_two_nums(*parse_rat(s.substr(0, u)), *parse_rat(s.substr(u + 1)));
 }
 static std::string show_entry(const RCP<const Basic> &e)
 {
@@ -279,24 +346,32 @@ static std::string show_entry(const RCP<const Basic> &e)
         return "null";
     if (is_a<Integer>(*e) || is_a<Rational>(*e))
         return e->__str__();
+    if (is_a<Complex>(*e)) {
+        const Complex &c = down_cast<const Complex &>(*e);
+        return c.real_part()->__str__() + "_" + c.imaginary_part()->__str__();
+    }
     if (eq(*e, *ComplexInf))
         return "zoo";
     if (is_a<NaN>(*e))
         return "nan";
     return "?" + e->__str__();
 }
-static bool entry_q(const RCP<const Basic> &e, mpq_class &q)
+static bool entry_q(const RCP<const Basic> &e, F &q)
 {
     if (e.is_null())
         return false;
-    if (is_a<Integer>(*e)) {
-        q = mpq_class(e->__str__());
+    if (is_a<Integer>(*e) || is_a<Rational>(*e)) {
+        mpq_class r(e->__str__());
+        r.canonicalize();
+        q = F(r);
         return true;
     }
-    if (is_a<Rational>(*e)) {
-        std::string s = e->__str__();
-        q = mpq_class(s);
-        q.canonicalize();
+    if (is_a<Complex>(*e)) {
+        const Complex &c = down_cast<const Complex &>(*e);
+        mpq_class r(c.real_part()->__str__()), i(c.imaginary_part()->__str__());
+        r.canonicalize();
+        i.canonicalize();
+        q = F(r, i);
         return true;
     }
     return false;
@@ -436,7 +511,7 @@ static std::string run_case(const std::string &line)
             if (to_q(A, a) && to_q(B, b) && a.r == b.r && a.c == b.c) {
                 QM e(a.r, a.c);
                 for (size_t i = 0; i < e.a.size(); i++)
-                    e.a[i] = op == "add" ? mpq_class(a.a[i] + b.a[i]) : mpq_class(a.a[i] * b.a[i]);
+                    e.a[i] = op == "add" ? (a.a[i] + b.a[i]) : (a.a[i] * b.a[i]);
                 if (!to_q(C, c) || !(c == e))
                     o.fail(op + ":wrong", "entrywise result differs");
             }
@@ -450,11 +525,11 @@ static std::string run_case(const std::string &line)
                 mul_dense_scalar(A, k, C);
             o.field(show_m(C));
             QM a, c;
-            mpq_class kq;
+            F kq;
             if (to_q(A, a) && entry_q(k, kq)) {
                 QM e(a.r, a.c);
                 for (size_t i = 0; i < e.a.size(); i++)
-                    e.a[i] = op == "adds" ? mpq_class(a.a[i] + kq) : mpq_class(a.a[i] * kq);
+                    e.a[i] = op == "adds" ? (a.a[i] + kq) : (a.a[i] * kq);
                 if (!to_q(C, c) || !(c == e))
                     o.fail(op + ":wrong", "entrywise result differs");
             }
@@ -576,7 +651,7 @@ static std::string run_case(const std::string &line)
             unsigned i = tk.uns();
             RCP<const Basic> c = parse_entry(tk.next());
             QM a, r;
-            mpq_class cq;
+            F cq;
             bool fin = to_q(A, a) && entry_q(c, cq);
             row_mul_scalar_dense(A, i, c);
             o.field(show_m(A));
@@ -592,7 +667,7 @@ static std::string run_case(const std::string &line)
             unsigned i = tk.uns(), j = tk.uns();
             RCP<const Basic> c = parse_entry(tk.next());
             QM a, r;
-            mpq_class cq;
+            F cq;
             bool fin = to_q(A, a) && entry_q(c, cq);
             row_add_row_dense(A, i, j, c);
             o.field(show_m(A));
@@ -885,7 +960,7 @@ static std::string run_case(const std::string &line)
             RCP<const Basic> d = op == "det_bareis" ? det_bareis(A) : det_berkowitz(A);
             o.field("S:" + show_entry(d));
             QM a;
-            mpq_class dq;
+            F dq;
             if (to_q(A, a) && a.r == a.c) {
                 bool sing = q_det(a) == 0;
                 if (!entry_q(d, dq))
@@ -902,7 +977,7 @@ static std::string run_case(const std::string &line)
             o.field(show_m(B));
             QM a, b;
             if (to_q(A, a) && a.r == a.c) {
-                std::vector<mpq_class> e = q_charpoly(a);
+                std::vector<F> e = q_charpoly(a);
                 if (!to_q(B, b) || b.a != e)
                     o.fail("char_poly:wrong", "coefficients differ from det(x I - A)");
             }
@@ -950,9 +1025,9 @@ static std::string run_case(const std::string &line)
             RCP<const Basic> t = A.trace();
             o.field("S:" + show_entry(t));
             QM a;
-            mpq_class tq;
+            F tq;
             if (to_q(A, a) && a.r == a.c) {
-                mpq_class e = 0;
+                F e = 0;
                 for (unsigned i = 0; i < a.r; i++)
                     e += a.at(i, i);
                 if (!entry_q(t, tq) || tq != e)
